@@ -27,6 +27,7 @@ from ..report import Report
 from ..model import walk_own
 from ..resolve import Ctx
 from . import c09, common
+from .. import dataflow
 
 READER_MOD = 'slimta.smtp.datareader'
 READER = READER_MOD + '.DataReader'
@@ -76,6 +77,21 @@ def run(e: Engine, rep: Report):
              'and EOD only - not by reader state that is set from the '
              'fragment being added')
     r57(e, rep)
+    rep.rule('R5.8', 'the dot-stuffer is applied to the parts the caller '
+             'gave, whole: every _process_part call receives an element of '
+             'self.parts (the start of a part is treated as the start of a '
+             'line; a piece cut elsewhere gets a dot doubled)')
+    r58(e, rep)
+    rep.rule('R5.9', 'the end marker is the end-of-data line `.CRLF`, '
+             'preceded by one complete CRLF or by nothing: no other value '
+             'is ever assigned to DataSender.end_marker')
+    r59(e, rep)
+    rep.rule('R5.10', 'the reader looks for the end of the data after '
+             'every socket read: between two raw_recv calls of '
+             'DataReader.recv lie add_lines and the EOD test (a read '
+             'issued after the message is complete waits for bytes that '
+             'belong to nobody)')
+    r510(e, rep)
     rep.floor('R5.1', 2, 'sentinel tests and rewrite sites')
     rep.floor('R5.3', 5, 'hand-over obligations')
 
@@ -535,3 +551,147 @@ def r57(e: Engine, rep: Report):
     if nsites < 2:
         rep.error('anchor vanished: per-line decision sites of DataReader '
                   '(%d < 2)' % nsites)
+
+
+# ------------------------------------------------------------------- R5.8
+def r58(e: Engine, rep: Report):
+    c = e.p.cls(SENDER)
+    n = 0
+    for mname, m in sorted(c.methods.items()):
+        for x in ast.walk(m.node):
+            if not (isinstance(x, ast.Call) and
+                    isinstance(x.func, ast.Attribute) and
+                    x.func.attr == '_process_part' and x.args):
+                continue
+            n += 1
+            rep.evaluations += 1
+            rep.functions.add(m.qname)
+            a = x.args[0]
+            ok = False
+            if isinstance(a, ast.Name):
+                # the variable of a loop / comprehension over self.parts (or
+                # over a local that is self.parts)
+                srcs = []
+                for y in ast.walk(m.node):
+                    if isinstance(y, (ast.For, ast.comprehension)) and any(
+                            isinstance(t, ast.Name) and t.id == a.id
+                            for t in ast.walk(y.target)):
+                        srcs.append((y.target, y.iter))
+
+                def is_parts(it, seen=()):
+                    if ast.unparse(it) == 'self.parts':
+                        return True
+                    if isinstance(it, ast.Name) and it.id not in seen:
+                        ds = [z.value for z in ast.walk(m.node)
+                              if isinstance(z, ast.Assign) and any(
+                                  isinstance(t, ast.Name) and t.id == it.id
+                                  for t in z.targets)]
+                        return bool(ds) and all(
+                            is_parts(d, seen + (it.id,)) for d in ds)
+                    return False
+                ok = bool(srcs) and all(
+                    isinstance(tg, ast.Name) and is_parts(it)
+                    for tg, it in srcs)
+            rep.check(ok, 'R5.8', m.qname,
+                      '_process_part is given a whole part',
+                      '`%s` hands the dot-stuffer something other than an '
+                      'element of self.parts: it escapes a leading dot as '
+                      'if its input began a line, so a piece that starts '
+                      'in the middle of a line gets a dot doubled'
+                      % ' '.join(ast.unparse(x).split())[:70], loc=m.loc(x),
+                      reason='iteration variable over self.parts')
+    if n < 1:
+        rep.error('anchor vanished: _process_part call sites (%d < 1)' % n)
+
+
+# ------------------------------------------------------------------- R5.9
+def r59(e: Engine, rep: Report):
+    import re as _re
+    c = e.p.cls(SENDER)
+    consts = common.class_constants(e, SENDER)
+    n = 0
+
+    def fold(x):
+        if isinstance(x, ast.Constant) and isinstance(x.value, bytes):
+            return x.value
+        if isinstance(x, ast.BinOp) and isinstance(x.op, ast.Add):
+            a, b = fold(x.left), fold(x.right)
+            return None if a is None or b is None else a + b
+        if isinstance(x, ast.Attribute) and isinstance(x.value, ast.Name) \
+                and x.value.id in ('self', 'cls') and \
+                isinstance(consts.get(x.attr), bytes):
+            return consts[x.attr]
+        return None
+    for mname, m in sorted(c.methods.items()):
+        for x in walk_own(m.node):
+            if not (isinstance(x, ast.Assign) and any(
+                    isinstance(t, ast.Attribute) and t.attr == 'end_marker'
+                    for t in x.targets)):
+                continue
+            vals = [x.value.body, x.value.orelse] if isinstance(
+                x.value, ast.IfExp) else [x.value]
+            for v in vals:
+                n += 1
+                rep.evaluations += 1
+                rep.functions.add(m.qname)
+                b = fold(v)
+                if b is None:
+                    rep.unknown('R5.9', m.qname, 'end marker value',
+                                'cannot evaluate `%s`' % ast.unparse(v),
+                                loc=m.loc(x))
+                    continue
+                rep.check(_re.fullmatch(br'(\r\n)?\.\r\n', b) is not None,
+                          'R5.9', m.qname, 'end marker %r' % b,
+                          'the sender ends the data with %r: that is not '
+                          '`.CRLF` preceded by a complete CRLF or by '
+                          'nothing - a partial line break merges with the '
+                          'last bytes of the message (a trailing CR becomes '
+                          'part of the terminator: the reader returns other '
+                          'bytes than were sent)' % b, loc=m.loc(x),
+                          reason='(CRLF)? . CRLF')
+    if n < 2:
+        rep.error('anchor vanished: assignments of end_marker (%d < 2)' % n)
+
+
+# ------------------------------------------------------------------ R5.10
+def r510(e: Engine, rep: Report):
+    ctx = e.method_ctx(READER, 'recv')
+    g = e.build(ctx, raises=lambda b, n, r: set(),
+                inline=e.inline_same_self(deny=['add_lines']), max_depth=4)
+    where = ctx.func.qname
+    rep.functions.add(where)
+    reads = [n for n in g.nodes if n.kind == 'call' and
+             e.call_name(n) in ('raw_recv', 'recv', 'recv_into') and
+             n.frame.ctx.func.cls is not None]
+    reads = [n for n in reads if e.call_name(n) != 'recv' or
+             'socket' in ast.unparse(n.ast.func)]
+    scans = [n for n in g.calls() if e.call_name(n) == 'add_lines']
+    if not reads or not scans:
+        rep.error('anchor vanished: raw_recv / add_lines in DataReader.recv')
+        return
+
+    def step(x, label, st):
+        if x in reads:
+            return 'read'
+        if x in scans and st == 'read':
+            return 'scanned'
+        if x.kind == 'test' and st == 'scanned' and label in ('T', 'F') and \
+                'EOD' in ast.unparse(x.ast):
+            return 'clear'
+        return st
+    for r in reads:
+        rep.evaluations += 1
+        # (the state that matters is the one in which the read is reached)
+        pth = dataflow.typestate_witness(
+            g, 'clear', lambda x, l, st: st if x is r and st != 'clear'
+            else step(x, l, st),
+            lambda x, st: x is r and st in ('read', 'scanned'))
+        rep.check(pth is None, 'R5.10', where,
+                  'socket read only after the previous piece was examined',
+                  'a second socket read can be issued before the piece '
+                  'just received was searched for the end of the data: '
+                  'when that piece completes the message the reader waits '
+                  'for bytes that are not coming (until the data timeout), '
+                  'depending only on how the stream was cut', loc=r.loc(),
+                  reason='add_lines and the EOD test lie between two reads',
+                  witness=dataflow.render_path(pth, 14) if pth else None)
